@@ -32,6 +32,8 @@ def main(argv=None):
     args = ap.parse_args(argv)
     pid = args.pid.upper()
     logging.disable(logging.CRITICAL)
+    import warnings
+    warnings.simplefilter('ignore')
     sys.setrecursionlimit(1000)
     mod = importlib.import_module('mc.' + pid.lower())
 
